@@ -35,7 +35,10 @@ for patch in "$VERIF"/mutants/$PAT.diff; do
     # mutants named *-miri-* are only visible to the Miri stratum; for all others the
     # stratum may be switched off by the caller (VERIF_NO_MIRI=1) to save time
     nomiri="${VERIF_NO_MIRI:-}"; case "$name" in *-miri-*) nomiri="" ;; esac
-    VERIF_NO_MIRI="$nomiri" VERIF_REPO="$SCR/repo" VERIF_TARGET="$SCR/target" VERIF_TARGET_NIGHTLY="$SCR/target-nightly" VERIF_OUT="$out" "$VERIF/check" "$c" quick > "$out/log" 2>&1
+    # defects keyed on addresses depend on the heap layout, which depends on path lengths: give
+    # them the full quick budget instead of the reduced world count of this self-test
+    worlds="$VERIF_WORLDS"; case "$name" in *-by-ptr|*-by-fingerprint) worlds=240000 ;; esac
+    VERIF_WORLDS="$worlds" VERIF_NO_MIRI="$nomiri" VERIF_REPO="$SCR/repo" VERIF_TARGET="$SCR/target" VERIF_TARGET_NIGHTLY="$SCR/target-nightly" VERIF_OUT="$out" "$VERIF/check" "$c" quick > "$out/log" 2>&1
     rc=$?
     got="$(grep -c "^VIOLATION property=$c " "$out/log")"
     if [ "$want" = 1 ]; then
